@@ -117,7 +117,8 @@ func c05Key(lp lk.LP, v val.V) string {
 }
 
 func c05Check(c C05Case, rec *evid.Rec) error {
-	lsys := lk.LinkSystem(c.Private)
+	// the private registry is filled in an order that is a deterministic function of the case
+	lsys := lk.LinkSystemFilled(c.Private, len(c.Ops))
 	var mem *memstore.Store
 	var cmem *cidlink.Memory
 	rawGet := func(l datamodel.Link) ([]byte, bool) {
